@@ -59,8 +59,8 @@ RULE = ("seeded random cases. chain: explicit key sets over the pitch "
         "values, function values, negative durations, override keys "
         "(send_gate, has_gate, msg_params, gate), unimplemented keys (latency, "
         "lag, timing_offset, strum), event types other than note and rest, "
-        "direct play of a rest, rests in an articulated Pmono, Pmono below "
-        "Pchain, timing "
+        "direct play of a rest, rests in an articulated Pmono, a Pmono "
+        "chained with a parallel stream, timing "
         "keys in the left operand of a Pchain over Pdelta/Ppar, quant != 0")
 AUDIT = """accommodation | justified by | status
 fractional degrees, ctranspose with degree, gtranspose/root/note with any
@@ -100,7 +100,8 @@ MIN_COUNTERS = {
               'tl_total_duration_checked': 800, 'tl_with_ppar': 300,
               'tl_with_pdur_clipping': 40, 'tl_with_pdelta': 200,
               'tl_with_pchain': 200, 'tl_mono_set_checked': 200,
-              'tl_special_pmono-artic': 100, 'tl_special_type-rest': 40, 'tl_special_delta-none': 20,
+              'tl_special_pmono-artic': 100, 'tl_special_pchain-pmono': 100,
+              'tl_pchain_pbind<>pmono': 50, 'tl_pchain_pmono<>pbind': 20, 'tl_special_type-rest': 40, 'tl_special_delta-none': 20,
               'tl_special_dur-inf': 20, 'tl_total_duration_bounded': 40,
               'play_programs_with_undescribed_instrument': 100,
               'tl_reuse_cases_ok': 500,
@@ -117,7 +118,9 @@ MIN_COUNTERS = {
                  'tl_total_duration_checked': 15000, 'tl_with_ppar': 5000,
                  'tl_with_pdur_clipping': 1000, 'tl_with_pdelta': 3000,
                  'tl_with_pchain': 3000, 'tl_mono_set_checked': 2000,
-                 'tl_special_pmono-artic': 2000, 'tl_special_type-rest': 800, 'tl_special_delta-none': 400,
+                 'tl_special_pmono-artic': 2000,
+                 'tl_special_pchain-pmono': 2000,
+                 'tl_pchain_pbind<>pmono': 1000, 'tl_pchain_pmono<>pbind': 400, 'tl_special_type-rest': 800, 'tl_special_delta-none': 400,
                  'tl_special_dur-inf': 400, 'tl_total_duration_bounded': 800,
                  'play_programs_with_undescribed_instrument': 2000,
                  'tl_reuse_cases_ok': 10000,
@@ -417,6 +420,26 @@ def run_timeline(spec, acc):
         ex = run.expect_timeline(case, start, info, groups)
         bad = run.compare(ex, cap, acc, 'tl', case['offgrid'])
         del case['expanded']
+        if case.get('special') == 'pchain-pmono':
+            acc.count(f"tl_pchain_{case['shape']}")
+            if case['left_controls']:
+                acc.count('tl_pchain_pmono_left_controls')
+            if case['left_controls'] and bad:
+                # the left operand defines values the mono messages carry
+                acc.violation('C14/timeline/pchain-over-pmono-left-values-'
+                              'not-carried', {'case': i, 'timeline_case': case,
+                                              'differences': sorted(
+                                                  {k for k, _ in bad}),
+                                              'first': bad[0][1]})
+                continue
+            if bad:
+                # the chained line is no mono line any more / its timeline or
+                # release differs: one key, the witness lists the differences
+                acc.violation('C14/timeline/chained-pmono-line-differs',
+                              {'case': i, 'timeline_case': case,
+                               'differences': sorted({k for k, _ in bad}),
+                               'first': bad[0][1]})
+                continue
         # differences that already carry their own mechanism key (input
         # classes of the pitch chain) are reported as they are; the rest goes
         # through the diagnoses below
